@@ -495,9 +495,10 @@ size_t rtosc_print_arg_val(const rtosc_arg_val_t *arg,
                     // convert fractions -> float
                     float flt = rtosc_secfracs2float(secfracs);
 
-                    // append float
+                    // append float (with at least one digit, since the
+                    // part before the decimal point is cut off below)
                     char fmtstr[8];
-                    asnprintf(fmtstr, 5, "%%.%df", prec);
+                    asnprintf(fmtstr, 5, "%%.%df", prec ? prec : 1);
                     int lastwrt = wrt;
                     wrt += asnprintf(buffer + wrt, bs - wrt,
                                      fmtstr, flt);
